@@ -258,6 +258,15 @@ impl<C> Batch<C> {
 
 const MAX_KEPT_VIOLATIONS: usize = 256;
 
+/// Degenerate reasons are grouped in the evidence: the operands of the library's shape
+/// assertions are dropped (there would be one entry per shape pair otherwise).
+fn normalise_reason(why: &str) -> String {
+    match why.find("(left:") {
+        Some(i) => format!("{}(shape assertion)", &why[..i]),
+        None => why.to_string(),
+    }
+}
+
 /// Run `count` generated cases over all cores. Deterministic in (seed, property, count):
 /// everything aggregated is order-independent (sums, sets) or sorted by run index.
 pub fn run_cases<P: Property>(p: &P, seed: u64, tier: Tier, count: u64, known: &[KnownFinding]) -> Batch<P::Case> {
@@ -311,7 +320,7 @@ pub fn run_cases<P: Property>(p: &P, seed: u64, tier: Tier, count: u64, known: &
                                 if std::env::var("VERIF_DEBUG_DEGENERATE").map(|f| why.contains(&f)).unwrap_or(false) {
                                     eprintln!("DEGENERATE run {}: {}\n{}", i, why, serde_json::to_string(&p.sample(&case)).unwrap());
                                 }
-                                *local.degenerate.entry(why.clone()).or_insert(0) += 1;
+                                *local.degenerate.entry(normalise_reason(why)).or_insert(0) += 1;
                             }
                             Outcome::Violation(v) => {
                                 if let Some(k) = key {
